@@ -415,6 +415,79 @@ def check_two_open_type_fields(rep):
                                      dict(case, bytes=d_typed.hex()))
 
 
+def check_record_shapes_around_open_type(rep):
+    """the open type field resolves whatever else the record declares: members sharing a tag before it (legal in a SEQUENCE
+    when a mandatory member separates their uses), OPTIONAL / DEFAULT members around it (present and absent), the governing
+    member last, a nested record ahead of it; single ANY, SEQUENCE OF ANY and SET OF ANY fields; every mode; resolution on, off
+    and by a caller-supplied map on a schema declared with an empty one"""
+    from pyasn1.type import univ, char, namedtype, opentype, tag as ptag
+    ints = univ.SequenceOf(componentType=univ.Integer())
+    inner_ints = ints.clone()
+    inner_ints.extend([7, 8])
+    tmap = {1: univ.OctetString(), 2: ints, 3: char.UTF8String()}
+    inners = {1: univ.OctetString(b'ab'), 2: inner_ints, 3: char.UTF8String(u'h\xe9')}
+
+    def shapes(field, otype):
+        NT, ONT, DNT = namedtype.NamedType, namedtype.OptionalNamedType, namedtype.DefaultedNamedType
+        value = NT('value', field, openType=otype)
+        yield 'same-tag members before', [NT('id', univ.Integer()), NT('first', univ.OctetString()), NT('second', univ.OctetString()), value], {'first': b'p', 'second': b'q'}
+        yield 'same-tag members around', [NT('first', univ.Boolean()), NT('id', univ.Integer()), NT('second', univ.Boolean()), value], {'first': True, 'second': False}
+        yield 'optional absent before', [NT('id', univ.Integer()), ONT('note', univ.Boolean()), value], {}
+        yield 'optional present before', [NT('id', univ.Integer()), ONT('note', univ.Boolean()), value], {'note': True}
+        yield 'default before, member after', [NT('id', univ.Integer()), DNT('lvl', univ.Boolean(False)), value,
+                                               ONT('tail', univ.Null().subtype(implicitTag=ptag.Tag(ptag.tagClassContext, ptag.tagFormatSimple, 9)))], {'tail': b''}
+        yield 'record before', [NT('hdr', univ.Sequence(componentType=namedtype.NamedTypes(NT('x', univ.Integer()), NT('y', univ.Integer())))),
+                                NT('id', univ.Integer()), value], {'hdr': {'x': 1, 'y': 2}}
+    for multi in (None, univ.SequenceOf, univ.SetOf):
+        for tagging in (None, 'i', 'e'):
+            any_spec = univ.Any()
+            if tagging:
+                tg = ptag.Tag(ptag.tagClassContext, ptag.tagFormatSimple, 4)
+                any_spec = any_spec.subtype(explicitTag=tg) if tagging == 'e' else any_spec.subtype(implicitTag=tg)
+            field = multi(componentType=any_spec) if multi else any_spec
+            for declared in (True, False):
+                for label, fields, others in shapes(field, opentype.OpenType('id', dict(tmap) if declared else {})):
+                    schema = univ.Sequence(componentType=namedtype.NamedTypes(*fields))
+                    for gid, inner in sorted(inners.items()):
+                        for cdc, dm in MODES:
+                            rep.evaluations += 1
+                            rep.count('record-shapes-around-open-type')
+                            case = {'kind': 'record-shape', 'shape': label, 'multi': multi.__name__ if multi else None, 'tagging': tagging,
+                                    'map-declared': declared, 'id': gid, 'codec': cdc, 'defMode': dm}
+                            try:
+                                v = schema.clone()
+                                for k_, x_ in others.items():
+                                    if isinstance(x_, dict):
+                                        for kk_, xx_ in x_.items():
+                                            v[k_][kk_] = xx_
+                                    else:
+                                        v[k_] = x_
+                                v['id'] = gid
+                                if multi:
+                                    v['value'].append(inner)
+                                    v['value'].append(inner)
+                                else:
+                                    v['value'] = inner
+                                data = enc(cdc, v, dm)
+                                raw = enc(cdc, inner, dm)
+                                kw = dict(decodeOpenTypes=True) if declared else dict(openTypes=dict(tmap), decodeOpenTypes=True)
+                                res, rest = codec.DEC[cdc].decode(data, asn1Spec=schema, **kw)
+                                got = list(res['value']) if multi else [res['value']]
+                                ok = (not rest) and len(got) == (2 if multi else 1) and all(type(g) is type(inner) and g == inner for g in got)
+                                res0, rest0 = codec.DEC[cdc].decode(data, asn1Spec=schema)
+                                got0 = list(res0['value']) if multi else [res0['value']]
+                                ok0 = (not rest0) and all(isinstance(g, univ.Any) for g in got0) and (
+                                    tagging is not None or all(bytes(g) == raw for g in got0))
+                            except Exception as e:  # noqa
+                                rep.fail('record-shape:%s' % codec.classify(e), '%s: %r' % (label, e), case)
+                                continue
+                            if not ok:
+                                rep.fail('record-shape:unresolved', '%s: with resolution on the field came back as %s' % (
+                                    label, [type(g).__name__ for g in got]), dict(case, bytes=data.hex()))
+                            elif not ok0:
+                                rep.fail('record-shape:raw', '%s: with resolution off the field is not the inner encoding' % label, dict(case, bytes=data.hex()))
+
+
 def check_set_untagged_any(rep):
     """SET { id, value ANY DEFINED BY id } with the ANY left untagged: members of a SET are told apart by tag, the untagged
     ANY stands for every tag no other member has - inner values whose outermost tag differs from the governing member's"""
@@ -578,6 +651,8 @@ def run(rep, tier, seed):
     check_nested_caller_map(rep)
     rep.case('two open type fields', nontrivial=True)
     check_two_open_type_fields(rep)
+    rep.case('record shapes around the open type field', nontrivial=True)
+    check_record_shapes_around_open_type(rep)
     rep.case('set with untagged any', nontrivial=True)
     check_set_untagged_any(rep)
     rep.case('defaulted governing field', nontrivial=True)
